@@ -556,6 +556,28 @@ services:
   v: {image: v, ports: ["80"], scale: 2}
 `
 
+const corpusTypedStrings = `
+services:
+  typed:
+    image: "t:${TAG:-1}"
+    privileged: "true"
+    init: "${INIT:-false}"
+    read_only: "yes"
+    cpus: "${CPUS:-0.5}"
+    scale: "${N:-2}"
+    pids_limit: "100"
+    ports:
+      - target: "80"
+        published: "8080"
+    healthcheck: {test: [CMD, x], retries: "3"}
+    ulimits: {nofile: "1024"}
+    deploy:
+      replicas: "2"
+networks:
+  default:
+    internal: "false"
+`
+
 const corpusInvalidSchema = `
 services:
   bad: {image: x, ports: {a: b}}
@@ -599,6 +621,7 @@ func CorpusScns() map[string]*Scn {
 			Main: []string{"compose.yaml"}, Env: map[string]string{"MAINTAG": "m"}},
 		"rich2":        {Files: files("compose.yaml", corpusRich2, "misc.labels", "ML=1\n", "raw.env", "RAW=not interpolated #kept\n"), Main: []string{"compose.yaml"}},
 		"rich3":        {Files: files("compose.yaml", corpusRich3, "s", "sec", "c", "cfg"), Main: []string{"compose.yaml"}, Env: map[string]string{"CENV": "CANARY-config-env"}},
+		"typed-strings": {Files: files("compose.yaml", corpusTypedStrings), Main: []string{"compose.yaml"}},
 		"profiles":     {Files: files("compose.yaml", corpusProfiles), Main: []string{"compose.yaml"}},
 		"version":      {Files: files("compose.yaml", corpusVersion), Main: []string{"compose.yaml"}},
 		"bad-schema":   {Files: files("compose.yaml", corpusInvalidSchema), Main: []string{"compose.yaml"}},
